@@ -519,6 +519,23 @@ func (w *World) sliceOp(t *Thread, f *Frame, i *ssa.Slice) Val {
 		return p[lo:hi]
 	case BytesV:
 		return p
+	case Sym:
+		if p.s == 'S' {
+			// s[lo:hi] on a symbolic string: out of range is a run-time panic
+			if lo < 0 {
+				lo = 0
+			}
+			if hi >= 0 {
+				if w.truth(symB(fmt.Sprintf("(< (str.len %s) %d)", p.t, hi))) {
+					panic(goPanicSignal{fmt.Sprintf("slice bounds out of range [:%d] with shorter string", hi)})
+				}
+				return symS(fmt.Sprintf("(str.substr %s %d %d)", p.t, lo, hi-lo))
+			}
+			if w.truth(symB(fmt.Sprintf("(< (str.len %s) %d)", p.t, lo))) {
+				panic(goPanicSignal{fmt.Sprintf("slice bounds out of range [%d:]", lo)})
+			}
+			return symS(fmt.Sprintf("(str.substr %s %d (- (str.len %s) %d))", p.t, lo, p.t, lo))
+		}
 	}
 	panic(engErr("slice op"))
 }
@@ -880,6 +897,9 @@ func (w *World) convert(x Val, from, to types.Type) Val {
 				cases = append(cases, "(and (<= "+ax+" 9007199254740992) (= "+f+" (to_real "+n.t+")))")
 				for s := 1; s <= 11; s++ {
 					lo, hi, p := pow2(52+s), pow2(53+s), pow2(s)
+					if w.s.check("(> "+ax+" "+lo+")") == "unsat" {
+						break // the value cannot be that large under the current path condition
+					}
 					cases = append(cases, fmt.Sprintf("(and (> %s %s) (<= %s %s) (= %s (to_real (* %s %s))) (<= (* 2 (ite (>= (- %s (* %s %s)) 0) (- %s (* %s %s)) (- (* %s %s) %s))) %s))",
 						ax, lo, ax, hi, f, m, p, n.t, m, p, n.t, m, p, m, p, n.t, p))
 				}
